@@ -329,6 +329,7 @@ Definition run_frames (fx : fixes) (oracle : nat -> orc) (st : est) (fs : list (
 
 Record output := mkout {
   out_still : bool;          (* a plain still image was written *)
+  out_via_encode : bool;     (* ... by SimpleEncodeFunc (webp.Encode), not by the muxer *)
   out_W : Z; out_H : Z;
   out_loop : Z;
   out_recs : list mrec
@@ -344,13 +345,13 @@ Definition close (simple_smaller : bool) (st : est) : option output :=
       match e_prev st with
       | Some prev =>
           if (e_fcount st =? 1) && simple_smaller then
-            Some (mkout true W H 0
+            Some (mkout true true W H 0
                     [mkmrec 0 0 (mkimg W H prev) (negb (eo_lossless (e_opts st))) false false 0])
           else if mux_animated (e_recs st) then
-            Some (mkout false W H (eo_loop (e_opts st)) (e_recs st))
+            Some (mkout false false W H (eo_loop (e_opts st)) (e_recs st))
           else
             (* one frame of duration 0: the muxer itself writes a simple file *)
-            Some (mkout true W H 0
+            Some (mkout true false W H 0
                     [mkmrec 0 0 (m_img r0) (m_lossy r0) false false 0])
       | None => None
       end
@@ -369,7 +370,7 @@ Section Codec.
   (* what the decoder obtains for one stored frame.  Animation frames go through
      encodeFrameForAnimation (pinned: encodeLossy drops the alpha data);
      the single-frame still goes through Encode, which always carries it. *)
-  Definition decoded (fx : fixes) (still : bool) (r : mrec) : img :=
+  Definition decoded (fx : fixes) (still : bool) (r : mrec) : img :=  (* still: written by webp.Encode *)
     if m_lossy r then
       if fix_alph fx || still then rt_ly (m_img r) else drop_alpha (rt_ly (m_img r))
     else rt_ll (m_img r).
@@ -385,7 +386,7 @@ Section Codec.
     spec_run W H (map (frame_of fx still) recs).
 
   Definition playback (fx : fixes) (o : output) : list (canvas * Z) :=
-    combine (play_recs fx (out_still o) (out_W o) (out_H o) (out_recs o))
+    combine (play_recs fx (out_via_encode o) (out_W o) (out_H o) (out_recs o))
             (map m_dur (out_recs o)).
 End Codec.
 
